@@ -24,19 +24,13 @@ the floor of `newFragmentBuffer`, the bounds guard, copy and bit loop of `addFra
 full/rem/mask expressions and tests of `complete`, `assembled`; the guards, their order,
 the calls and the rebuilt header of `readHandshake`; the splitting arithmetic of
 `writeHandshakeRecord`; the constants 12 / 65536 / 256. -/
+-- (The statement-text facts about dtlcp/fragment.go that used to be pinned here — guard, copy, bit loop, masks —
+-- are superseded by the tie by translation: `Gotlcp.Tie.Fragment` proves the TRANSLATED functions equal to the
+-- model for all inputs, which is insensitive to renamings and equivalent re-arrangements of the text.)
 theorem C17_facts :
     Facts.missing = [] ∧
     Facts.dtlcp.dtlcpHeaderLen = 12 ∧ Facts.dtlcp.maxHandshake = FragmentSpec.maxHandshake ∧
     Facts.dtlcp.maxHandshakeFragments = FragmentSpec.maxFragmentIterations ∧
-    Facts.dtlcp.fragNewFloorsAtOne = true ∧ Facts.dtlcp.fragNewNumBytesIsN = true ∧
-    Facts.dtlcp.fragNewData = "make([]byte, n)" ∧ Facts.dtlcp.fragNewReceived = "make([]byte, (n+7)>>3)" ∧
-    Facts.dtlcp.fragAddGuard = "int(offset)+int(length) > fb.numBytes" ∧ Facts.dtlcp.fragAddGuardRejects = true ∧
-    Facts.dtlcp.fragAddCopy = "copy(fb.data[offset:offset+length], frag)" ∧
-    Facts.dtlcp.fragAddEnd = "int(offset) + int(length)" ∧
-    Facts.dtlcp.fragAddBitLoop = "for i := int(offset); i < end; i++ { fb.received[i>>3] |= 1 << (i & 7) }" ∧
-    Facts.dtlcp.fragCompleteFull = "fb.numBytes >> 3" ∧ Facts.dtlcp.fragCompleteRem = "fb.numBytes & 7" ∧
-    Facts.dtlcp.fragCompleteMask = "byte((1 << rem) - 1)" ∧ Facts.dtlcp.fragCompleteTests = true ∧
-    Facts.dtlcp.fragCompleteLoop = "i := 0; i < full; i++" ∧ Facts.dtlcp.fragAssembled = "return fb.data" ∧
     Facts.dtlcp.rxFragmentCapFatal = true ∧ Facts.dtlcp.rxTooLongFatal = true ∧ Facts.dtlcp.rxOobFatal = true ∧
     Facts.dtlcp.rxTooLongBeforeOob = true ∧ Facts.dtlcp.rxFragmentBranch = true ∧
     Facts.dtlcp.rxAddCall = "fb.addFragment(uint24(fragOff), uint24(fragLen), data[dtlcpHeaderLen:])" ∧
